@@ -19,6 +19,10 @@
 //   - starts a part of the two-chain histories after one deployment round that gave all chains the
 //     same compass unique id, and replays genuine signatures also under chain reference ids that
 //     are not the batch's (sibling chain, unknown chain - crossref.go);
+//   - in a part of the histories lets validators replace their registered bridge key (a fresh key, or a
+//     key another validator retired) by a real MsgAddExternalChainInfoForValidator, and submits
+//     fabricated batches signed with the RETIRED keys before and after the next snapshot build: a
+//     retired key is nobody's registered key, or its new holder's - never the former holder's (rekey.go);
 //   - submits truly bad signatures (validator key over a fabricated batch) as a control: they must
 //     jail, otherwise the "never jailed" verdicts would be vacuous (INCONCLUSIVE);
 //   - at every prune (h%50==0, age > 300) decides from the recorded evidence sets (whose
@@ -52,6 +56,9 @@ type params struct {
 	// the chains got their compass in ONE deployment round: a newer compass activated on every chain with the same
 	// unique id right after bring-up (crossref.go); only in histories with two chains
 	SharedCompassID bool `json:"shared_compass_id,omitempty"`
+	// validators replace their registered bridge key in mid-history (new key / a key another validator retired), and
+	// evidence signed with the retired keys is submitted before and after the next snapshot build (rekey.go)
+	Rekey bool `json:"rekey,omitempty"`
 }
 
 // stake vectors (ugrain). Every validator is below the 25 % jailing protection unless noted;
@@ -115,6 +122,7 @@ func cases(tier string, seed int64) []fw.Case {
 		p.Calm = isEdgeSlot(seed, i)
 		p.Activations = hasActivations(i)
 		p.SharedCompassID = p.NChains > 1 && hasSharedCompassID(seed, i)
+		p.Rekey = hasRekey(i)
 		out = append(out, fw.MkCase(fmt.Sprintf("hist-%03d-%s", i, p.Focus), s, p))
 	}
 	return out
@@ -135,17 +143,20 @@ func init() {
 			"Half of the two-chain histories (a quarter of all) start after one deployment round that gave every chain the SAME compass unique id (a newer compass activated on all chains through EvmKeeper.ActivateChainReferenceID before the first batch); " +
 			"in every history genuine signatures (built and re-estimated stage, plain or equivalent spelling) are also replayed under chain reference ids that are not the batch's - the sibling chain (unique id shared or not), a chain reference id paloma does not know - " +
 			"after every block of a two-chain history on a fork (every 4th block otherwise) and in a sample of real transactions (own random stream). " +
+			"Four of every eleven histories replace registered bridge keys in mid-history by real MsgAddExternalChainInfoForValidator transactions (2-3 retirements in 450 blocks, 3-5 in 900; a third right after a snapshot build, a sixth shortly before one; " +
+			"more than half followed 2-15 blocks later by ANOTHER validator registering the retired key; own random stream); never-issued batches signed with every retired key are submitted on a fork after every block while the current snapshot " +
+			"still lists the key for its former holder, every ~6th block afterwards, and in a sample of real transactions; the genuine confirmations made with a key before it was replaced keep being replayed. " +
 			"'evaluations' counts oracle decisions: one per bad-signature-evidence submission (fork or real tx; who may be jailed) and one per (newly jailed or attesting validator x pruned message). " +
-			"A distinct non-trivial case is a distinct (checkpoint stage, batch state at replay time, subject variant, submitter class, outcome; in histories with activations also the activation state of the chain at issue and at submission time) evidence tuple or a distinct " +
+			"A distinct non-trivial case is a distinct (checkpoint stage, batch state at replay time, subject variant, submitter class, outcome; in histories with activations also the activation state of the chain at issue and at submission time; for signatures by retired keys also who has the key registered now and whether the current snapshot still lists it for its former holder) evidence tuple or a distinct " +
 			"(evidence-share bucket, position within one share of the 10% floor and 10*attested-total, delivery kind, shares attesting before/after a re-delivery, #attesters, #jailed) prune tuple.",
 		Assumptions: []string{
 			"'issued' = BytesToSign of a batch stored in skyway state at some block boundary (what pigeons are handed for signing); every batch state change is visible at a boundary because batches are built/re-estimated only in end blockers",
 			"the compass unique id in the evm chain info changes only when ActivateChainReferenceID is called with a contract id newer than the active one (monitor's model, cross-checked against the chain info after every activation; INCONCLUSIVE on disagreement); the reference checkpoint of an evidence subject uses the id in force at submission time",
 			"genuine signatures are produced with the validators' registered keys over exactly those bytes, with the personal-message prefix pigeons use",
-			"every validator has ONE eth key, registered on all chains of the world; the checkpoint of an evidence subject is the one made from the compass unique id of the chain the evidence message names (the handler's documented reading), so in a world whose chains share the unique id a batch's published checkpoint is a published checkpoint under either chain reference id; evidence naming a chain reference id paloma does not know may jail nobody",
+			"every validator has ONE eth key at a time, registered on all chains of the world; 'registered key' = the address the validator's record in the live registry (valset external chain infos - what MsgConfirmBatch is verified against) carries at submission time: the monitor's model of it is updated when the chain accepts a registration and cross-checked against the registry afterwards (INCONCLUSIVE on disagreement); a key a validator has replaced is not its registered key any more, whatever the current snapshot still lists; the checkpoint of an evidence subject is the one made from the compass unique id of the chain the evidence message names (the handler's documented reading), so in a world whose chains share the unique id a batch's published checkpoint is a published checkpoint under either chain reference id; evidence naming a chain reference id paloma does not know may jail nobody",
 			"all pigeons keep their keep-alive current, support all chains and have balances, so bad-signature evidence and message pruning are the only jailing sources in the histories; any other jailing makes the case INCONCLUSIVE",
 			"fork replays call the real MsgServiceRouter handler on a cache context (no ante); a sample of replays goes through real transactions with the full ante chain",
-			"control: a signature by a registered validator key over a never-issued checkpoint must jail that validator (else INCONCLUSIVE, not a violation of the statement)",
+			"control: a signature by a registered validator key over a never-issued checkpoint must jail that validator (else INCONCLUSIVE, not a violation of the statement); demanded only while the signer's registration is settled = the current snapshot lists the signer with the key the registry has (not for a validator released from jail that is in no snapshot yet, nor between a key replacement and the next snapshot build)",
 		},
 		Cases: cases,
 		Run:   run,
@@ -154,7 +165,10 @@ func init() {
 			"replay_tried_activation:issued-in=unique-ids-differ/signed=built", "replay_tried_activation:issued-in=newer-contract/signed=built",
 			"worlds_with_shared_compass_unique_id",
 			"replay_chain_ref:sibling-chain/same-unique-id/signed=built", "replay_chain_ref:sibling-chain/same-unique-id/signed=re-estimated", "replay_chain_ref:sibling-chain/same-unique-id/realtx",
-			"replay_chain_ref:sibling-chain/different-unique-id/signed=built", "replay_chain_ref:unknown-chain/signed=built"},
+			"replay_chain_ref:sibling-chain/different-unique-id/signed=built", "replay_chain_ref:unknown-chain/signed=built",
+			"key_rotations:new-key", "key_rotations:takes-over-retired-key",
+			"retired_key_evidence:unregistered/snapshot-still-lists-former-holder", "retired_key_evidence:registered-by-other/snapshot-still-lists-former-holder",
+			"retired_key_evidence:unregistered/snapshot-rebuilt", "retired_key_evidence_realtx"},
 		Workers:  16,
 		TimeoutS: 3600, // generous: the watchdog only guards against hangs (a 900-block history is ~25 s CPU)
 	})
